@@ -41,7 +41,7 @@ Allowed(e) ==
                CASE o.peer \in {"acks", "wrong"} -> {"ok"}
                  [] o.peer \in {"silent", "noread"} -> {"deadline"}
                  [] o.peer \in {"closes", "resets", "garbage"} -> {"peer"}
-                 [] o.peer = "late" -> (IF o.lateMs - 30 <= Bound(e) THEN {"ok"} ELSE {}) \cup (IF o.lateMs + 30 >= e.deadlineMs THEN {"deadline"} ELSE {})
+                 [] o.peer = "late" -> (IF o.lateMs - 30 <= Bound(e) THEN {"ok"} ELSE {}) \cup (IF o.lateMs + 60 >= e.deadlineMs THEN {"deadline"} ELSE {})
                  [] OTHER -> {}
           [] e.op = "send" -> IF o.peer = "noread" /\ o.sendSize >= 16000000 THEN {"deadline"} ELSE {"ok"}
           [] e.op = "ping" -> {"ok"}
